@@ -17,8 +17,8 @@ theorem coreM_none (m : Mod) : coreM none m = m.core := by
 def revertCore (s : Ctx) : Ctx :=
   fixLatest (s.implementing.foldl unimplement s) (removeCreated (s.implementing.foldl unimplement s))
 
-/-- `m'` is `m` up to `latest_revision` -/
-def Mod.butLatest (m' m : Mod) : Prop := m' = { m with latest := m'.latest }
+/-- `m'` is `m` up to `latest_revision` and `to_compile` -/
+def Mod.butLatest (m' m : Mod) : Prop := m' = { m with latest := m'.latest, toCompile := m'.toCompile }
 
 theorem Mod.butLatest.refl (m : Mod) : m.butLatest m := rfl
 
@@ -44,6 +44,10 @@ theorem fixLatest_spec (s1 s2 : Ctx) :
       fun _ => rfl, rfl⟩
   have hid : ∃ g : Mod → Mod, (∀ m, (g m).butLatest m) ∧ s2 = { s2 with mods := s2.mods.map g } :=
     ⟨id, fun m => Mod.butLatest.refl m, by simp⟩
+  have hM : ∀ (dss : List (List MKey)) (imp : List MKey) (t : Ctx), ∃ g : Mod → Mod, (∀ m, (g m).butLatest m) ∧
+      markReverted dss imp t = { t with mods := t.mods.map g } :=
+    fun dss imp t => ⟨fun m => if m.implemented && dss.any (fun ds => ds.contains m.key && imp.any ds.contains)
+      then { m with toCompile := true } else m, fun m => by dsimp only; split <;> rfl, rfl⟩
   unfold fixLatest
   dsimp only
   have h3 : ∃ g : Mod → Mod, (∀ m, (g m).butLatest m) ∧
@@ -54,12 +58,23 @@ theorem fixLatest_spec (s1 s2 : Ctx) :
     · exact hid
   obtain ⟨g3, hg3, e3⟩ := h3
   rw [e3]
+  have h5 : ∃ g : Mod → Mod, (∀ m, (g m).butLatest m) ∧
+      (if s1.cfg.recomputeImported = true then recomputeImported { s2 with mods := s2.mods.map g3 } else { s2 with mods := s2.mods.map g3 })
+        = { s2 with mods := s2.mods.map g } := by
+    split
+    · obtain ⟨g4, hg4, e4⟩ := hI { s2 with mods := s2.mods.map g3 }
+      refine ⟨g4 ∘ g3, fun m => (hg4 (g3 m)).trans (hg3 m), ?_⟩
+      rw [e4]
+      simp [List.map_map]
+    · exact ⟨g3, hg3, rfl⟩
+  obtain ⟨g5, hg5, e5⟩ := h5
+  rw [e5]
   split
-  · obtain ⟨g4, hg4, e4⟩ := hI { s2 with mods := s2.mods.map g3 }
-    refine ⟨g4 ∘ g3, fun m => (hg4 (g3 m)).trans (hg3 m), ?_⟩
-    rw [e4]
+  · obtain ⟨g6, hg6, e6⟩ := hM s1.depSets s1.implementing { s2 with mods := s2.mods.map g5 }
+    refine ⟨g6 ∘ g5, fun m => (hg6 (g5 m)).trans (hg5 m), ?_⟩
+    rw [e6]
     simp [List.map_map]
-  · exact ⟨g3, hg3, rfl⟩
+  · exact ⟨g5, hg5, rfl⟩
 
 theorem Mod.butLatest.core {m' m : Mod} (h : m'.butLatest m) : m'.core = m.core := by
   unfold Mod.butLatest at h; rw [h]; rfl
@@ -70,12 +85,26 @@ theorem Mod.butLatest.key {m' m : Mod} (h : m'.butLatest m) : m'.key = m.key := 
 theorem Mod.butLatest.compiled {m' m : Mod} (h : m'.butLatest m) : m'.compiled = m.compiled := by
   unfold Mod.butLatest at h; rw [h]
 
-theorem Mod.butLatest.toCompile {m' m : Mod} (h : m'.butLatest m) : m'.toCompile = m.toCompile := by
-  unfold Mod.butLatest at h; rw [h]
-
 theorem Mod.butLatest.restoredCore {m' m : Mod} (h : m'.butLatest m) (imp : List MKey) (mk : Option MKey) :
     Mod.restoredCore imp mk m' = Mod.restoredCore imp mk m := by
   unfold Mod.butLatest at h; rw [h]; rfl
+
+/-- `lys_features_restore` on the error path: nothing, or the features of one module -/
+theorem restoreFeats_cases (s : Ctx) (op : Op) (s1 : Ctx) :
+    restoreFeats s op s1 = s1 ∨ ∃ k m0, s.find k = some m0 ∧ targetKey s op = some k ∧
+      restoreFeats s op s1 = s1.upd k fun m => { m with feats := m0.feats, subFeats := m0.subFeats } := by
+  unfold restoreFeats
+  split
+  · cases hk : targetKey s op with
+    | none => exact Or.inl rfl
+    | some k =>
+      cases hf : s.find k with
+      | none => left; simp only [hf]
+      | some m0 => right; exact ⟨k, m0, hf, rfl, by simp only [hf]⟩
+  · exact Or.inl rfl
+
+theorem restoreFeats_cfg (s : Ctx) (op : Op) (s1 : Ctx) : (restoreFeats s op s1).cfg = s1.cfg := by
+  rcases restoreFeats_cases s op s1 with h | ⟨k, m0, _, _, h⟩ <;> rw [h] <;> rfl
 
 theorem revert_eq (s : Ctx) :
     revert s = if s.implementing.isEmpty then revertCore s else (compileAll (revertCore s)).2 := rfl
